@@ -141,6 +141,7 @@ func Load(thorough bool) (*Prog, error) {
 			p.SSAPkgs[pkgs[i].PkgPath] = sp
 		}
 	}
+	gProg = p
 	return p, nil
 }
 
